@@ -168,6 +168,8 @@ pub struct NodeTrace {
     pub conn: Vec<(bool, i32)>,
     /// connection status when the first Disconnected event was drained
     pub conn_at_disc: Vec<(bool, i32)>,
+    /// largest peak of live heap bytes above the level at call entry, over all API calls
+    pub peak_alloc: usize,
 }
 
 pub struct ExecResult {
@@ -911,6 +913,7 @@ fn new_node<C: HCfg>(sess: Sess<C>, addr: Addr, is_spec: bool, window: usize, sc
             size_series: Vec::new(),
             conn: Vec::new(),
             conn_at_disc: Vec::new(),
+            peak_alloc: 0,
         },
         dead: false,
         window,
@@ -1060,10 +1063,12 @@ fn step_node<C: HCfg>(
         return;
     }
     if mode == 2 {
+        let alloc_base = crate::alloc::begin(usize::MAX);
         let r = catch_unwind(AssertUnwindSafe(|| match &mut n.sess {
             Sess::P(s) => s.poll_remote_clients(),
             Sess::S(s) => s.poll_remote_clients(),
         }));
+        n.tr.peak_alloc = n.tr.peak_alloc.max(crate::alloc::end(alloc_base));
         rec.res = R_POLL_ONLY;
         if let Err(p) = r {
             let m = panic_msg(p);
@@ -1081,6 +1086,7 @@ fn step_node<C: HCfg>(
         Sess::P(s) => {
             let f = s.current_frame();
             let handles = scn.peers[ni].locals.clone();
+            let alloc_base = crate::alloc::begin(usize::MAX);
             let r = catch_unwind(AssertUnwindSafe(|| {
                 for h in &handles {
                     s.add_local_input(*h, scn.program.value(*h, f)).expect("add_local_input for a local handle");
@@ -1091,6 +1097,7 @@ fn step_node<C: HCfg>(
                     s.advance_frame()
                 }
             }));
+            n.tr.peak_alloc = n.tr.peak_alloc.max(crate::alloc::end(alloc_base));
             match r {
                 Ok(Ok(reqs)) => {
                     rec.res = R_OK;
@@ -1121,6 +1128,7 @@ fn step_node<C: HCfg>(
         }
         Sess::S(s) => {
             // explicit poll first so that frames_behind_host() is the value the pacing rule uses
+            let alloc_base = crate::alloc::begin(usize::MAX);
             let r = catch_unwind(AssertUnwindSafe(|| {
                 s.poll_remote_clients();
                 let behind = if s.current_state() == SessionState::Running {
@@ -1130,6 +1138,7 @@ fn step_node<C: HCfg>(
                 };
                 (behind, s.advance_frame())
             }));
+            n.tr.peak_alloc = n.tr.peak_alloc.max(crate::alloc::end(alloc_base));
             match r {
                 Ok((behind, Ok(reqs))) => {
                     rec.behind = behind;
